@@ -13,12 +13,14 @@ package main
 // functions and variables listed in newInterp.  Anything else stops the translator with the position of the construct.
 
 import (
+	"bytes"
 	"fmt"
 	"go/ast"
 	"go/token"
 	"math/big"
 	"reflect"
 	"strconv"
+	"unicode/utf8"
 
 	"github.com/shopspring/decimal"
 )
@@ -31,6 +33,13 @@ func (x *xNumber) Native() decimal.Decimal  { return x.d }
 func (x *xNumber) Equals(o *xNumber) bool   { return x.d.Equals(o.d) }
 func (x *xNumber) Compare(o *xNumber) int   { return x.d.Cmp(o.d) }
 func (x *xNumber) Render() string           { return x.d.String() }
+
+type xText struct{ s string }
+
+func newXText(s string) *xText  { return &xText{s} }
+func (x *xText) Native() string { return x.s }
+func (x *xText) Empty() bool    { return x.s == "" }
+func (x *xText) Length() int    { return utf8.RuneCountInString(x.s) }
 
 type xError struct{ msg string }
 
@@ -107,6 +116,8 @@ func newInterp(files ...*ast.File) *interp {
 		"types.NewXErrorf":          newXErrorf,
 		"types.NewXNumber":          newXNumber,
 		"types.XNumberZero":         newXNumber(decimal.Zero),
+		"types.NewXText":            newXText,
+		"types.XTextEmpty":          newXText(""),
 		"fmt.Sprintf":               fmt.Sprintf,
 		"fmt.Sprint":                fmt.Sprint,
 		"big.NewInt":                big.NewInt,
@@ -125,7 +136,7 @@ func (in *interp) fail(n ast.Node, f string, a ...any) {
 
 func (in *interp) tick(n ast.Node) {
 	in.steps++
-	if in.steps > 2000000 {
+	if in.steps > 40000000 {
 		in.fail(n, "too many steps")
 	}
 }
@@ -302,6 +313,8 @@ func (in *interp) stmt(s ast.Stmt, sc *scope) *returned {
 					v = int64(0)
 				} else if id, isId := vs.Type.(*ast.Ident); isId && id.Name == "bool" {
 					v = false
+				} else if vs.Type != nil && src(vs.Type) == "bytes.Buffer" {
+					v = &bytes.Buffer{}
 				}
 				sc.vars[n.Name] = v
 			}
@@ -325,6 +338,28 @@ func (in *interp) stmt(s ast.Stmt, sc *scope) *returned {
 			return in.block(e.List, &scope{vars: map[string]any{}, parent: inner})
 		case *ast.IfStmt:
 			return in.stmt(e, inner)
+		}
+	case *ast.ForStmt:
+		inner := &scope{vars: map[string]any{}, parent: sc}
+		if x.Init != nil {
+			in.stmt(x.Init, inner)
+		}
+		for {
+			if x.Cond != nil {
+				c, ok := in.eval(x.Cond, inner).(bool)
+				if !ok {
+					in.fail(x.Cond, "loop condition is not a boolean")
+				}
+				if !c {
+					break
+				}
+			}
+			if r := in.block(x.Body.List, &scope{vars: map[string]any{}, parent: inner}); r != nil {
+				return r
+			}
+			if x.Post != nil {
+				in.stmt(x.Post, inner)
+			}
 		}
 	case *ast.SwitchStmt:
 		inner := &scope{vars: map[string]any{}, parent: sc}
@@ -662,7 +697,7 @@ func (in *interp) callExpr(x *ast.CallExpr, sc *scope) any {
 				in.fail(x, "method %s on nil", sel.Sel.Name)
 			}
 			switch recv.(type) {
-			case decimal.Decimal, *big.Int, *xNumber, *xError:
+			case decimal.Decimal, *big.Int, *xNumber, *xError, *xText, *bytes.Buffer:
 			default:
 				in.fail(x, "method %s on a %T", sel.Sel.Name, recv)
 			}
